@@ -229,3 +229,108 @@ func Run(c *gen.Ctx) error {
 	meta.Distribution = map[string]any{"operations": len(ops), "plans": len(plan), "configurations": len(probes), "generated_but_invalid_discarded": invalid, "payload_counts": stats}
 	return meta.Write(c.OutDir)
 }
+
+// SingleFaultCases runs the pinned deferred operations with one fault (error, panic) at every resolver they invoke and
+// adds them as defer_case cases of kind "deferfault" for another property (C04: containment inside deferred groups).
+func SingleFaultCases(outDir, prop, monLabel string, probes []xeng.Probe, meta *gen.Meta) error {
+	type genOp struct {
+		query string
+		vars  map[string]any
+		op    *ast.OperationDefinition
+	}
+	var ops []genOp
+	for _, q := range corpus {
+		doc, errs := gqlparser.LoadQuery(xeng.Schema, q)
+		if errs != nil {
+			return fmt.Errorf("corpus operation does not validate: %s", q)
+		}
+		vars, verr := validator.VariableValues(xeng.Schema, doc.Operations[0], nil)
+		if verr != nil {
+			return fmt.Errorf("corpus operation variables: %s", q)
+		}
+		ops = append(ops, genOp{q, vars, doc.Operations[0]})
+	}
+	var round1 []xeng.Case
+	for i, op := range ops {
+		round1 = append(round1, xeng.Case{ID: i, Query: op.query, Oracle: xeng.NewOracle(), TimeoutMs: 4000})
+	}
+	res1, err := xeng.RunAll(probes[0].Built.Bin, round1)
+	if err != nil {
+		return err
+	}
+	type planned struct {
+		op  int
+		orc xeng.Oracle
+	}
+	var plan []planned
+	for i := range ops {
+		seen := map[string]bool{}
+		for _, l := range res1[i].Log {
+			if l[0] != "r" || seen[l[1]] {
+				continue
+			}
+			seen[l[1]] = true
+			for _, kind := range []string{"error", "panic"} {
+				o := xeng.NewOracle()
+				o.Fields[l[1]] = xeng.FieldPlan{O: kind, Tag: "single"}
+				plan = append(plan, planned{i, o})
+			}
+		}
+	}
+	cf := &gen.CaseFile{Dir: outDir, Prop: prop, Kind: "deferfault", Requires: []string{"Base.Prelude", "Model.Exec", "Model.Defer", "Corr.Corr_C01", "Corr.Corr_C13"}, Type: "defer_case",
+		Checks: []gen.Check{{Label: "corr", Fn: "defer_corr"}, {Label: monLabel, Fn: "defer_monitor_contain"}, {Label: "monmodel", Fn: "defer_monitor_on_model"}}, Shard: 50}
+	cf.Preamble = "Definition sch : schema := " + xeng.SchemaCoq(xeng.Schema) + "."
+	var cases []xeng.Case
+	for i, p := range plan {
+		cases = append(cases, xeng.Case{ID: i, Query: ops[p.op].query, Oracle: p.orc, TimeoutMs: 4000})
+	}
+	var descrs []any
+	selTerms := map[int]string{}
+	use := probes
+	if len(use) > 2 {
+		use = use[:2]
+	}
+	for _, pr := range use {
+		results, err := xeng.RunAll(pr.Built.Bin, cases)
+		if err != nil {
+			return err
+		}
+		for i, p := range plan {
+			res := results[i]
+			op := ops[p.op]
+			if res.Crashed || res.Hang || len(res.Responses) == 0 {
+				meta.Direct = append(meta.Direct, gen.DirectFinding{Signature: "probe-crash-or-hang", What: "the generated server crashed, hung or gave no response on a deferred operation with one fault",
+					Replay: map[string]any{"config": pr.Cfg.Name, "query": op.query, "oracle": p.orc, "crashed": res.Crashed, "hang": res.Hang}})
+				continue
+			}
+			if _, ok := selTerms[p.op]; !ok {
+				selTerms[p.op] = xeng.SelsCoq(op.op.SelectionSet, op.vars)
+			}
+			all := res.All()
+			first := all[0]
+			var pls, raw []string
+			for _, x := range all {
+				hn := "None"
+				if x.HasNext != nil {
+					hn = "(Some " + gen.Bool(*x.HasNext) + ")"
+				}
+				pls = append(pls, fmt.Sprintf("{| op_path := %s; op_label := %s; op_data := %s; op_errors := %s; op_has_next := %s |}",
+					xeng.PathCoq(x.PathString()), gen.Str(x.Label), x.DataTerm(), x.ErrorsTerm(), hn))
+			}
+			for _, rr := range res.Responses {
+				raw = append(raw, string(rr))
+			}
+			cf.Add(fmt.Sprintf("{| dc_exec := {| xc_schema := sch; xc_root := \"Query\"%%string; xc_sels := %s; xc_oracle := %s; xc_data := %s; xc_errors := %s; xc_log := %s; xc_recovers := %d%%nat; xc_order := [] |}; dc_payloads := %s |}",
+				selTerms[p.op], p.orc.Coq(), first.DataTerm(), first.ErrorsTerm(), xeng.LogCoq(res.Log), res.Recovers, gen.List(pls)))
+			descrs = append(descrs, descr{op.query, p.orc, pr.Cfg.Name, raw, ""})
+		}
+	}
+	if err := meta.AddCaseFile(cf, descrs); err != nil {
+		return err
+	}
+	if meta.Distribution == nil {
+		meta.Distribution = map[string]any{}
+	}
+	meta.Distribution["deferred_operations_with_one_fault"] = cf.Len()
+	return nil
+}
